@@ -223,7 +223,7 @@ def run(tier, seed):
     lap('start (after proof + runner build)')
     # ---------------------------------------------------------------- is-superselector ------
     pairs = [(a, b) for a, b in CORPUS_SUPER]
-    gp = gen_super_pairs(rng, 2000 if not big else 40000)
+    gp = gen_super_pairs(rng, 2000 if not big else 20000)
     pairs += [(G.list_text(a), G.list_text(b)) for a, b in gp]
     trees = [None] * len(CORPUS_SUPER) + gp
     if big:
@@ -327,7 +327,7 @@ def run(tier, seed):
     lap('before selector-unify')
     # ---------------------------------------------------------------- selector-unify --------
     ucases = []
-    for _ in range(700 if not big else 12000):
+    for _ in range(700 if not big else 6000):
         r = rng.random()
         if r < 0.6:
             a = [[G.gen_compound(rng, sel_depth=rng.choice([0, 0, 1]))]]
@@ -402,7 +402,7 @@ def run(tier, seed):
     lap('before nest / append')
     # ---------------------------------------------------------------- nest / append ---------
     ncases = []
-    for _ in range(350 if not big else 4000):
+    for _ in range(350 if not big else 2000):
         P = G.gen_list(rng, 2, max_compounds=2, sel_depth=0, pe=False)
         kids = []
         for _ in range(rng.choice([1, 1, 2])):
@@ -418,7 +418,7 @@ def run(tier, seed):
                 x = [[("parent", None)], "+", [("parent", None)]]
             kids.append(x)
         ncases.append(("nest", G.list_text(P), G.list_text(kids)))
-    for _ in range(250 if not big else 3000):
+    for _ in range(250 if not big else 1500):
         P = G.gen_list(rng, 2, max_compounds=2, sel_depth=0, pe=False)
         kids = []
         for _ in range(rng.choice([1, 1, 2])):
@@ -489,7 +489,7 @@ def run(tier, seed):
     lap('before extend / replace')
     # ---------------------------------------------------------------- extend / replace ------
     ecases = []
-    for _ in range(300 if not big else 4000):
+    for _ in range(300 if not big else 2000):
         S = G.gen_list(rng, 2, sel_depth=rng.choice([0, 0, 1]), pe=False)
         simples = [s for x in S for p in x if not isinstance(p, str) for s in p if s[0] in ("cls", "id", "type", "attr", "pc")]
         if not simples:
@@ -539,7 +539,7 @@ def run(tier, seed):
 
     lap('before parse / print, crash')
     # ---------------------------------------------------------------- parse / print, crash ---
-    pcases = [G.list_text(G.gen_list(rng)) for _ in range(300 if not big else 3000)]
+    pcases = [G.list_text(G.gen_list(rng)) for _ in range(300 if not big else 1500)]
     impl = eval_exprs(pool, [f"selector-parse({q(a)})" for a in pcases])
     lines = []
     for k, a in enumerate(pcases):
@@ -570,7 +570,7 @@ def run(tier, seed):
         ck.count(("parse", a), eqv.startswith("ok holds") and int(eqv.split(" ")[3]) > 0)
 
     # no crash on anything the style-rule parser accepts (full + weird alphabet)
-    weird = list(WEIRD) + [G.list_text(G.gen_list(rng, placeholders=True)) for _ in range(150 if not big else 1500)]
+    weird = list(WEIRD) + [G.list_text(G.gen_list(rng, placeholders=True)) for _ in range(150 if not big else 800)]
     accepted = eval_rules(pool, [f"{w} {{ i: {k} }}" for k, w in enumerate(weird)])
     exprs, owner = [], []
     for k, w in enumerate(weird):
